@@ -2,7 +2,7 @@
     and followed by [Print Assumptions]. *)
 From Coq Require Import List ZArith NArith Bool Permutation Sorted.
 From Kardia Require Import Base.Int64 C12.Model C12.Spec C12.ProofsSort C12.ProofsUpdate C12.ProofsSpec
-     C12.ProofsFair C12.ProofsRefine C12.ProofsUpdate2 C12.ProofsUpdate3 C12.ProofsUpdate4 C12.ProofsUpdate5 C12.ProofsExamples C12.Open Generated.C12Facts.
+     C12.ProofsFair C12.ProofsRefine C12.ProofsUpdate2 C12.ProofsUpdate3 C12.ProofsUpdate4 C12.ProofsUpdate5 C12.ProofsReport C12.ProofsExamples C12.Open Generated.C12Facts.
 Import ListNotations.
 Local Open Scope Z_scope.
 
@@ -276,3 +276,46 @@ Theorem C12_window_after_round_spec :
     within_window (Z.max (W + pmax - pmin) (total_power l)) l'.
 Proof. exact spec_round_window. Qed.
 Print Assumptions C12_window_after_round_spec.
+
+(** verifyUpdates: the verdict depends only on the final total (updates applied, removals
+    subtracted) — accepted iff it is at most the cap, whatever the order of the change set —
+    and the value returned is the exact total before removals *)
+Theorem C12_verify_updates_decides :
+  forall vals ups dels,
+    NoDup (map v_addr (ups ++ dels)) ->
+    (forall v, In v vals -> 0 < v_power v) -> total_power vals <= max_total_voting_power ->
+    (forall u, In u ups -> 0 < v_power u <= max_total_voting_power) ->
+    let T := total_power vals in
+    let removed := lsum vals dels in
+    verify_updates ups vals T removed =
+      (if T - removed + dsum vals ups <=? max_total_voting_power then Some (T + dsum vals ups) else None).
+Proof. exact verify_updates_decides. Qed.
+Print Assumptions C12_verify_updates_decides.
+
+(** ... and no intermediate wrap: because the deltas are added in ascending order and checked
+    after every step, each running total of an accepted change set lies in [0, cap] (it can
+    never pass 2^63 and come back into range, however many near-cap entries there are) *)
+Theorem C12_verify_updates_running_totals :
+  forall vals us acc r,
+    (forall v, In v vals -> 0 < v_power v <= max_total_voting_power) ->
+    (forall u, In u us -> 0 <= v_power u <= max_total_voting_power) ->
+    lsum vals us <= acc <= max_total_voting_power ->
+    add_deltas vals us acc = Some r ->
+    Forall (fun x => 0 <= x <= max_total_voting_power) (running vals us acc).
+Proof. exact add_deltas_running. Qed.
+Print Assumptions C12_verify_updates_running_totals.
+
+(** the path from the application's validator report to the set (calculateValidatorSetUpdates
+    + updateState): a report with an address twice, a negative power, a power above the cap, or
+    power 0 for an address that is not a member is rejected as a whole — error, state unchanged *)
+Theorem C12_report_invalid_rejected :
+  forall s report,
+    good s -> report_invalid (vs_vals s) report ->
+    exists e, e <> UOk /\ apply_report s report = Some (s, e).
+Proof. exact report_invalid_rejected. Qed.
+Print Assumptions C12_report_invalid_rejected.
+
+Theorem C12_report_accepted_keeps_good :
+  forall s report s', good s -> apply_report s report = Some (s', UOk) -> good s'.
+Proof. exact report_ok_good. Qed.
+Print Assumptions C12_report_accepted_keeps_good.
